@@ -20,7 +20,7 @@ R7 client mapping : From<StatusCode> for WebauthnError maps exactly Ctap2(Known(
 import json
 import os
 
-from . import core, flow, names, summary
+from . import core, flow, names, normal, summary
 from .framework import where, short, api_name, VERIF
 from .common import CLIENT, ceremony, find_aggs
 
@@ -267,25 +267,34 @@ def run(chk):
         if not chk.require("R6 status partition", "R6|%s|try_from" % nm, b, E + nm, "TryFrom<u8> for %s not found" % nm):
             continue
         chk.touched(b)
-        outs = S.local_outcomes(b)
+        # the conversion evaluated as a table over all 256 byte values (normal.finite_table: the extracted decision table with
+        # the parameter replaced by each constant and the conditions folded) — match ranges, comparison ladders, range tables
+        # searched with `any`, helper predicates all give the same table
+        Nf = normal.Normalizer(p, S)
+        tab_b = normal.finite_table(S, b, Nf, ("param", 1), range(256))
         acc = set()
-        mapping_ok = True
+        mapping_ok = all(v is not None for v in tab_b.values())
         adt = p.adts.get(E + nm)
         discr = {v["name"]: int(v["discr"]) for v in adt["variants"]} if adt and adt["kind"] == "Enum" else None
-        for o in outs:
-            bs = byte_set(o.conds, ("param", 1))
-            if o.variant[:1] == ("Ok",):
-                acc |= bs
-                if discr is not None:
-                    v = dict(o.value[3]).get("0")
-                    vn = v[2] if v and v[0] == "agg" else None
-                    if vn is None or bs != {discr.get(vn)}:
-                        mapping_ok = False
-                else:
-                    v = dict(o.value[3]).get("0")
-                    inner = dict(v[3]).get("0") if v and v[0] == "agg" else None
-                    if inner != ("param", 1):
-                        mapping_ok = False
+        for k_, hit in tab_b.items():
+            if hit is None:
+                continue
+            val = hit[1]
+            if not (isinstance(val, tuple) and len(val) == 4 and val[0] == "agg"):
+                mapping_ok = False
+                continue
+            if val[2] != "Ok":
+                continue
+            acc.add(k_)
+            v = dict(val[3]).get("0")
+            if discr is not None:
+                vn = v[2] if v and v[0] == "agg" else None
+                if vn is None or discr.get(vn) != k_:
+                    mapping_ok = False
+            else:
+                inner = dict(v[3]).get("0") if v and v[0] == "agg" else None
+                if inner != ("const", k_):
+                    mapping_ok = False
         classes[nm] = acc
         chk.ob("R6 status partition", "R6|%s|byte-to-value" % nm, mapping_ok and bool(acc), where(b),
                "%d accepted bytes; each maps to the variant with that discriminant / wraps the byte itself: %s" % (len(acc), mapping_ok))
